@@ -459,6 +459,7 @@ fn cmd_worker(args: &[String]) -> i32 {
     let mut nontrivial: BTreeSet<u64> = BTreeSet::new();
     let mut samples = Vec::new();
     let mut faulty_programs = 0u64;
+    let mut unwinding_programs = 0u64;
     let mut i = offset;
     while i < limit {
         if let Some(f) = pf.as_mut() {
@@ -469,6 +470,10 @@ fn cmd_worker(args: &[String]) -> i32 {
         let prog = conc::gen_program_sized(seed, i, faults, long && i % 2 == 1);
         if !prog.fail_req.is_empty() {
             faulty_programs += 1;
+        }
+        let panicking = |ops: &[conc::TOp]| ops.iter().any(|o| matches!(o, conc::TOp::RetainPanic { .. } | conc::TOp::ExtendPanic { .. }));
+        if panicking(&prog.main_ops) || prog.threads.iter().any(|t| panicking(&t.ops)) {
+            unwinding_programs += 1;
         }
         programs += 1;
         let r = run_program(&prog, i, seed, schedules, None);
@@ -517,6 +522,7 @@ fn cmd_worker(args: &[String]) -> i32 {
         "distinct_schedules": distinct.len(), "nontrivial": nontrivial.len(),
         "preemptions_by_point": pre_map, "found": found, "class_counts": class_counts, "samples": samples,
         "programs_with_allocator_faults": faulty_programs,
+        "programs_with_a_callback_panicking_inside_a_thread": unwinding_programs,
         "allocator_faults_fired": c,
     });
     std::fs::write(&out, serde_json::to_vec(&j).unwrap()).expect("write out");
@@ -586,7 +592,7 @@ fn cmd_batch(args: &[String]) -> i32 {
             continue;
         }
         let j: serde_json::Value = serde_json::from_slice(&std::fs::read(&out).unwrap()).expect("worker json");
-        for key in ["programs", "executions", "scheduler_steps", "distinct_schedules", "programs_with_allocator_faults"] {
+        for key in ["programs", "executions", "scheduler_steps", "distinct_schedules", "programs_with_allocator_faults", "programs_with_a_callback_panicking_inside_a_thread"] {
             *sums.entry(key.into()).or_insert(0) += j[key].as_u64().unwrap_or(0);
         }
         if let Some(o) = j["preemptions_by_point"].as_object() {
